@@ -34,27 +34,28 @@ Definition sf_trunc (x : spec_float) : option Z :=
 
 (* Go: int64(f).  In range: truncation toward zero.  Out of range (and NaN) the Go spec leaves the
    result implementation-defined; amd64 (CVTTSD2SQ) yields the "integer indefinite" 0x8000000000000000. *)
-Definition int64_indefinite : Z := - 2 ^ 63.
+Definition int64_indefinite : Z := -9223372036854775808.   (* -2^63 *)
 Definition to_int64 (f : f64) : Z :=
   match sf_trunc (Prim2SF f) with
-  | Some v => if (- 2 ^ 63 <=? v) && (v <? 2 ^ 63) then v else int64_indefinite
+  | Some v => if (-9223372036854775808 <=? v) && (v <? 9223372036854775808) then v else int64_indefinite
   | None => int64_indefinite
   end.
 
 (* math.Float64bits as a number in [0, 2^64).  NaN is given the canonical quiet pattern. *)
+Definition two52 : Z := 4503599627370496.
+Definition two63 : Z := 9223372036854775808.
 Definition bits_sf (x : spec_float) : Z :=
   match x with
-  | S754_zero s => if s then 2 ^ 63 else 0
-  | S754_infinity s => (if s then 2 ^ 63 else 0) + 2047 * 2 ^ 52
-  | S754_nan => 2047 * 2 ^ 52 + 2 ^ 51
+  | S754_zero s => if s then two63 else 0
+  | S754_infinity s => (if s then two63 else 0) + 2047 * two52
+  | S754_nan => 2047 * two52 + 2251799813685248
   | S754_finite s m e =>
-      (if s then 2 ^ 63 else 0) +
-      (if Z.pos m <? 2 ^ 52 then Z.pos m                       (* subnormal: e = -1074 *)
-       else (e + 1075) * 2 ^ 52 + (Z.pos m - 2 ^ 52))
+      (if s then two63 else 0) +
+      (if Z.pos m <? two52 then Z.pos m                        (* subnormal: e = -1074 *)
+       else (e + 1075) * two52 + (Z.pos m - two52))
   end.
 Definition bits (f : f64) : Z := bits_sf (Prim2SF f).
 
-(* The exact real value of a finite float as a fraction num / 2^k or num * 2^e (used by proofs). *)
 Definition f_one : f64 := 1%float.
 Definition f_two : f64 := 2%float.
 Definition f_1e9 : f64 := 1000000000%float.
